@@ -44,7 +44,6 @@ EXPECTED_NOT_UNDERSTOOD = {
 # behaviour-preserving refactorings (confirmed: identical observable output, baseline passes) that the checker cannot follow.  Required: exit 0 or 2, never 1.
 REFACTOR_NOT_UNDERSTOOD = {
     "sa/selftest/never_alarm/C16/refactor_D.diff": "the three accumulator dicts replaced by one dict of dataclass objects filled from a generator function: generators are not interpreted and the result builder has another signature",
-    "sa/selftest/never_alarm/C05/refactor_J.diff": "the sweep boundaries built by concatenating a frame of (+value, start) rows and a frame of (-value, end) rows instead of melt + replace: the bit-sweep rule only knows the melt + replace construction",
     "sa/selftest/never_alarm/C07/refactor_I.diff": "the overlap sweep rewritten on parallel numpy arrays (concatenate / repeat / stable argsort / cumsum): another sweep algorithm than the +-marker template",
     "sa/selftest/never_alarm/C07/refactor_J.diff": "the overlap sweep rewritten on a Series keyed by time stamp with the changes summed per distinct time stamp (groupby(level=0).sum()): another sweep algorithm than the +-marker template",
     "sa/selftest/never_alarm/C05/refactor_G.diff": "busy time summed per running bit mask first, each mask named once, the per-mask totals regrouped by name: equality with the per-row labelling needs the regrouping law "
